@@ -94,6 +94,7 @@ struct func {
 	struct type *type;
 	struct block *start, *end;
 	struct map gotos;
+	struct gotolabel *gotolist;
 	unsigned lastid;
 };
 
@@ -522,6 +523,7 @@ mkfunc(struct decl *decl, char *name, struct type *t, struct scope *s)
 	f->start = f->end = mkblock("start");
 	f->lastid = 0;
 	mapinit(&f->gotos, 8);
+	f->gotolist = NULL;
 	emittype(t->base);
 
 	/* allocate space for parameters */
@@ -651,6 +653,9 @@ funcgoto(struct func *f, char *name)
 		g = xmalloc(sizeof(*g));
 		g->label = mkblock(name);
 		g->defined = false;
+		g->loc = tok.loc;
+		g->next = f->gotolist;
+		f->gotolist = g;
 		*entry = g;
 	}
 
@@ -1283,7 +1288,12 @@ emitfunc(struct func *f, bool global)
 	struct inst **inst, **instend;
 	struct decl *p;
 	struct value *v;
+	struct gotolabel *g;
 
+	for (g = f->gotolist; g; g = g->next) {
+		if (!g->defined)
+			error(&g->loc, "label '%s' is used but not defined", g->label->label.u.name);
+	}
 	if (f->end->jump.kind == JUMP_NONE) {
 		v = NULL;
 		/* implicitly return 0 from main if we reach the end of the function */
